@@ -650,15 +650,15 @@ func (fc *FnCtx) eqTerm(t types.Type, a, b string) string {
 	switch t.Underlying().(type) {
 	case *types.Slice:
 		// only comparison with nil is legal
-		if a == "nilslice" {
+		if a == "nilslice" || a == "(mkslice 0 0 0 0)" {
 			return fmt.Sprintf("(= (sarr %s) 0)", b)
 		}
 		return fmt.Sprintf("(= (sarr %s) 0)", a)
 	case *types.Interface:
-		if a == "niliface" {
+		if a == "niliface" || a == "(mkiface 0 0)" {
 			return fmt.Sprintf("(= (itag %s) 0)", b)
 		}
-		if b == "niliface" {
+		if b == "niliface" || b == "(mkiface 0 0)" {
 			return fmt.Sprintf("(= (itag %s) 0)", a)
 		}
 	}
